@@ -835,6 +835,13 @@ func parseClause(fc *FuncContract, w, rest string, en rawLine, path string) erro
 			fmt.Sscanf(ck[1], "%d", &cg.Ordinal)
 		}
 		switch parts[1] {
+		case "given", "given_after":
+			body := strings.TrimSpace(rest[strings.Index(rest, parts[1])+len(parts[1]):])
+			e, err := parseExpr(body)
+			if err != nil {
+				return err
+			}
+			cg.Val, cg.Text = e, body
 		case "assert":
 			body := strings.TrimSpace(rest[strings.Index(rest, "assert")+6:])
 			tags, b2 := parseTags(body)
@@ -857,7 +864,7 @@ func parseClause(fc *FuncContract, w, rest string, en rawLine, path string) erro
 			}
 			cg.Val = e
 		default:
-			return fmt.Errorf("call kind must be ghost, bind or assert")
+			return fmt.Errorf("call kind must be ghost, bind, assert, given or given_after")
 		}
 		fc.CallGhosts = append(fc.CallGhosts, cg)
 	default:
